@@ -24,8 +24,8 @@ OBL = {
 }
 
 NAME_POOL = ["x", "y", "z", "var", "e5", "E1", "inf1", "st1", "free1", "x_1", "c2", "c3", "r", "obj2", "Max1", "bnd", "a.b", "v(1)", "w#", "x1", "x2", "x10",
-             "BOUND", "RHS", "RANGE", "MARKER", "longer_name_with_underscores_0123456789", "q!", "p&q", "n~", "k{2}", "t|u", "s@t", "d$", "g%"]
-ROW_POOL = ["r", "c", "obj", "con", "c2", "c3", "c10", "R1", "e5", "lim", "RHS", "RANGE", "BOUND", "obj1", "row.a", "cap(2)", "bal#1", "x", "long_constraint_name_0123456789_abcdefghij"]
+             "BOUND", "RHS", "RANGE", "MARKER", "longer_name_with_underscores_0123456789", "q!", "p&q", "n~", "k{2}", "t|u", "s@t", "d$", "g%", "p%dq", "u%%v", "w%s"]
+ROW_POOL = ["r", "c", "obj", "con", "c2", "c3", "c10", "R1", "e5", "lim", "RHS", "RANGE", "BOUND", "obj1", "row.a", "cap(2)", "bal#1", "x", "long_constraint_name_0123456789_abcdefghij", "r%d", "c%%1"]
 
 
 def named_problem(rng, big=False):
@@ -75,6 +75,17 @@ def named_problem(rng, big=False):
 
 def build_lines(slot, lp, cn, rn):
     lines = ["create %d %s" % (slot, lp.sense)]
+    if gen.hash_str(lp.line()) % 3 == 0:
+        # rows first, then the columns with their entries: the structural columns then do not occupy the first matrix
+        # columns (structmap is not the identity), which is what a user gets who adds columns to an existing model
+        for i, r in enumerate(lp.rows):
+            lines.append("newrow %d %s %s %s" % (slot, hx(rn[i]), r[0], q2s(r[1])))
+            if r[0] == "R":
+                lines.append("chgrange %d %d %s" % (slot, i, q2s(r[2])))
+        for j, c in enumerate(lp.cols):
+            ent = [(i, a) for i, r in enumerate(lp.rows) for jj, a in r[3] if jj == j]
+            lines.append("addcol %d %s %s %s %s %d%s" % (slot, hx(cn[j]), q2s(c[0]), q2s(c[1]), q2s(c[2]), len(ent), "".join(" %d %s" % (i, q2s(a)) for i, a in ent)))
+        return lines
     for j, c in enumerate(lp.cols):
         lines.append("newcol %d %s %s %s %s" % (slot, hx(cn[j]), q2s(c[0]), q2s(c[1]), q2s(c[2])))
     for i, r in enumerate(lp.rows):
